@@ -50,10 +50,12 @@ macro_rules! check_type {
                 if oc != norm && *v == oc.as_str() {
                     viol($coll, $l, "c15.eq_str", format!("{}: == &str true for a differently-cased text", $name), b, "false".into(), format!("true for {:?}", oc));
                 }
-                let mut longer = norm.clone();
-                longer.push('a');
-                if *v == longer.as_str() || *v == &norm[..norm.len() - 1] {
-                    viol($coll, $l, "c15.eq_str", format!("{}: == &str true for a longer/shorter text", $name), b, "false".into(), "true".into());
+                for p in crate::spaces::eq_probes(&norm) {
+                    match guard_total(|| *v == p.as_str()) {
+                        Ok(false) => {}
+                        Ok(true) => viol($coll, $l, "c15.eq_str", format!("{}: == &str true for a text that is not its own", $name), b, "false".into(), format!("true for {:?}", p)),
+                        Err(e) => viol($coll, $l, "c15.eq_str", format!("{}: == &str panics", $name), b, "false".into(), format!("PANIC({}) for {:?}", e, p)),
+                    }
                 }
                 let into: Option<String> = $intofn(v);
                 if let Some(s) = into {
@@ -87,6 +89,20 @@ pub fn check_c15(b: &[u8], l: &mut Local, coll: &Collector) {
     check_type!(Region, "Region", rm::is_region, |b: &[u8]| rm::upper(b), b, l, coll, 6,
                 |v: &Region| Some(<&str>::from(v).to_string()));
     check_type!(Variant, "Variant", rm::is_variant, |b: &[u8]| rm::lower(b), b, l, coll, 9, |_v: &Variant| None::<String>);
+    // Variant is the one subtag type that also implements comparison with the unsized `str`
+    if let Out::Ok(v) = guard(|| Variant::from_bytes(b)) {
+        let norm = rm::lower(b);
+        if !(v == *norm.as_str()) {
+            viol(coll, l, "c15.eq_str", "Variant: == str false for its canonical text".into(), b, "true".into(), "false".into());
+        }
+        for p in crate::spaces::eq_probes(&norm) {
+            match guard_total(|| v == *p.as_str()) {
+                Ok(false) => {}
+                Ok(true) => viol(coll, l, "c15.eq_str", "Variant: == str true for a text that is not its own".into(), b, "false".into(), format!("true for {:?}", p)),
+                Err(e) => viol(coll, l, "c15.eq_str", "Variant: == str panics".into(), b, "false".into(), format!("PANIC({}) for {:?}", e, p)),
+            }
+        }
+    }
     let any_valid = rm::is_lang(b) || rm::is_script(b) || rm::is_region(b) || rm::is_variant(b);
     if any_valid {
         l.nontrivial += 1;
